@@ -16,7 +16,7 @@ import sys
 from . import env
 from .runner import CaseFailure
 
-RUNS = {"quick": 300, "thorough": 6000}
+RUNS = {"quick": 300, "thorough": 4000}
 
 
 def available():
@@ -27,9 +27,9 @@ def available():
         return False
 
 
-def run_campaign(modname, spec, seed, acc, minimise=None, runs=None):
+def run_campaign(modname, spec, seed, acc, minimise=None, runs=None, tier=None):
     """Parent side: start the child, collect statistics and (if any) the failing case."""
-    tier = env.tier()
+    tier = tier or env.tier()
     runs = runs or RUNS.get(tier, 300)
     out = env.scratch("vffuzz")
     os.makedirs(os.path.join(out, "corpus"), exist_ok=True)
